@@ -26,6 +26,9 @@ func main() {
 		os.Exit(cmdRun(os.Args[2:]))
 	case "child":
 		os.Exit(cmdChild(os.Args[2:]))
+	case "gen":
+		// vx gen <n> <seed>: statements of the generators, one per line (tooling for differential probes)
+		cmdGen(os.Args[2:])
 	default:
 		usage()
 	}
